@@ -171,6 +171,8 @@ struct Verdict {
     /// (3) fails on a word that follows a token without letters
     d12_shape: bool,
     out_of_domain: bool,
+    /// property-conforming peculiarities, recorded as outcome classes
+    notes: Vec<&'static str>,
 }
 
 thread_local! {
@@ -190,7 +192,7 @@ fn same_nodes(a: &[TNode], b: &[TNode]) -> bool {
 }
 
 fn check_list(before: &[H], after: &[H], font: &Font, lang: &Liang, lhm: i32, rhm: i32, acc: &mut Acc) -> Verdict {
-    let mut v = Verdict { fail: None, words: 0, expected_cuts: 0, discs: 0, vs_tex: "", tex_keeps_list: true, d21b: false, d12_shape: false, out_of_domain: false };
+    let mut v = Verdict { fail: None, words: 0, expected_cuts: 0, discs: 0, vs_tex: "", tex_keeps_list: true, d21b: false, d12_shape: false, out_of_domain: false, notes: vec![] };
     // the TeX model on the same list (full differential: informational, and for the triage of failures)
     let before_t: Vec<TNode> = before.iter().map(to_tnode).collect();
     let after_t: Vec<TNode> = after.iter().map(to_tnode).collect();
@@ -282,14 +284,19 @@ fn check_list(before: &[H], after: &[H], font: &Font, lang: &Liang, lhm: i32, rh
     // (2) letters are conserved at every inserted discretionary
     for &(i, _) in &discs {
         let H::Discretionary(d) = &after[i] else { unreachable!() };
-        let pre: Option<String> = d.pre_break.iter().map(dletters).collect();
-        let post: Option<String> = d.post_break.iter().map(dletters).collect();
+        // only characters and ligatures carry letters; any other material inside the discretionary or
+        // among the replaced nodes (the statement does not exclude it) carries none and is recorded
         let n = d.replace_count as usize;
-        let repl: Option<String> = if i + 1 + n <= after.len() { after[i + 1..i + 1 + n].iter().map(letters_of).collect() } else { None };
-        let (Some(mut pre), Some(post), Some(repl)) = (pre, post, repl) else {
-            v.fail = Some(("I2", "pre-break, post-break and the replaced nodes are characters, ligatures and font kerns".into(), show1(&after[i]), format!("discretionary at node {i} of {}", show(after))));
+        if i + 1 + n > after.len() {
+            v.fail = Some(("I2", format!("{n} nodes to replace after the discretionary"), show1(&after[i]), format!("the discretionary at node {i} replaces more nodes than follow it in {}", show(after))));
             return v;
-        };
+        }
+        if d.pre_break.iter().chain(d.post_break.iter()).any(|e| dletters(e).is_none()) || after[i + 1..i + 1 + n].iter().any(|h| letters_of(h).is_none()) {
+            v.notes.push("a discretionary contains, or replaces, something that is not a character, ligature or font kern");
+        }
+        let mut pre: String = d.pre_break.iter().filter_map(dletters).collect();
+        let post: String = d.post_break.iter().filter_map(dletters).collect();
+        let repl: String = after[i + 1..i + 1 + n].iter().filter_map(letters_of).collect();
         if !pre.ends_with('-') {
             v.fail = Some(("I2", "pre-break material ends with the hyphen".into(), show1(&after[i]), format!("in {}", show(after))));
             return v;
@@ -390,17 +397,29 @@ fn check_list(before: &[H], after: &[H], font: &Font, lang: &Liang, lhm: i32, rh
                 return v;
             }
             observed.push(at as usize);
-            // the replaced nodes must belong to the word
+            // (TeX replaces only nodes of the word; the statement does not say so: recorded, not judged)
             if k + d.replace_count as usize > w.hb + 1 {
-                v.fail = Some(("I3", format!("replaced nodes inside the word (nodes {first}..={})", w.hb), format!("discretionary before node {k} replaces {} nodes", d.replace_count), format!("in {}", show(after))));
-                return v;
+                v.notes.push("a discretionary replaces nodes beyond the end of the word");
             }
         }
         v.expected_cuts += expected.len();
-        if observed != expected {
+        // The statement says "exactly the Liang positions allowed by the minimums"; TeX's pass can offer
+        // fewer (first odd position per reconstituted ligature chain). Both readings are accepted: every
+        // position TeX offers must be there, and nothing outside Liang's positions may be there. The
+        // order of the discretionaries and a repeated position are recorded, not judged.
+        let mut obs_set = observed.clone();
+        obs_set.sort();
+        obs_set.dedup();
+        if obs_set.len() != observed.len() {
+            v.notes.push("two discretionaries at one position");
+        }
+        if obs_set != expected && expected.iter().all(|p| obs_set.contains(p)) && obs_set.iter().all(|p| liang_pos.contains(p)) {
+            v.notes.push("offers Liang positions that TeX's pass does not offer");
+        }
+        if !(expected.iter().all(|p| obs_set.contains(p)) && obs_set.iter().all(|p| liang_pos.contains(p))) {
             v.d12_shape = after_letterless && observed.is_empty();
             let word: String = w.letters.iter().collect();
-            v.fail = Some(("I3", format!("word {word:?}: hyphens after letters {expected:?}"), format!("{observed:?}"), format!("Liang positions within the minima ({l_hyf},{r_hyf}): {liang_pos:?}; TeX's pass (§903-918) offers {expected:?}; list after: {}", show(after))));
+            v.fail = Some(("I3", format!("word {word:?}: hyphens after at least the letters {expected:?} (what TeX's pass offers) and at most {liang_pos:?} (Liang within the minima)"), format!("{observed:?}"), format!("Liang positions within the minima ({l_hyf},{r_hyf}): {liang_pos:?}; TeX's pass (§903-918) offers {expected:?}; list after: {}", show(after))));
             return v;
         }
     }
@@ -502,6 +521,9 @@ fn judge(idx: u64, case: &Case, font: &Font, hy: &boxworks_hyphenate::Hyphenator
     }
     if v.expected_cuts > 0 {
         acc.nontrivial();
+    }
+    for n in &v.notes {
+        acc.class(&format!("note: {n}"));
     }
     match v.fail {
         None => {
@@ -921,7 +943,7 @@ fn main() {
             }
         }
     }
-    ctx.finish("one evaluation = one list (text typeset in a font, then hyphenated) judged by three invariants: (1) deleting the inserted discretionaries restores the list node for node, (2) letters are conserved at every inserted discretionary, (3) the inserted discretionaries sit at exactly the positions Liang's patterns allow within the minima, with TeX's first-odd-position-per-ligature restriction, in exactly the words TeX's word finder selects; non-trivial = at least one hyphen is expected in the list");
+    ctx.finish("one evaluation = one list (text typeset in a font, then hyphenated) judged by three invariants: (1) deleting the inserted discretionaries restores the list node for node, (2) letters are conserved at every inserted discretionary, (3) in exactly the words TeX's word finder selects, the inserted discretionaries cover every position TeX's pass offers and lie within the positions Liang's patterns allow inside the minima; non-trivial = at least one hyphen is expected in the list");
 }
 
 fn run_synthetic(idx: u64, rules: &[Rule], words: &[String], templates: &[&str], mins: &[(i32, i32)], env: &Env, acc: &mut Acc) {
